@@ -63,6 +63,16 @@ CLAIMED = {
             "controls are non-repeating pre-solve sim-time controls toggling the run-time switch; that remove_leak clears everything.",
             "Leak term in the balance rows and tank demand is decided under C01. Timing itself is C04's mechanism. Not decided: solution values.",
             "DESIGN.md §4 C08"),
+    "C09": ("encoding tables extracted from the AST (status -> graph entry, both directions, parallel-link recomputation, source set), CFG "
+            "must-pass-through for graph refresh / search / solve order, C++ shape facts read by a tokenizer and argument-order agreement with the "
+            "Python caller, flag life-cycle ordering, path-sensitive last-store table of store_results_in_network (may-semantics for compound "
+            "guards), sibling comparison of all constraint builders",
+            "Decides that the connectivity graph marks a link connected iff its effective status is not Closed (parallel links: any), that tanks and "
+            "reservoirs are the sources, that the graph is refreshed before every search and the search precedes every solve, that flags are cleared, "
+            "set for exactly the unreached junctions and their links and mirrored into the model rows in both directions of change, and that an "
+            "isolated junction / link reports zeros on every path while a connected one reports solved values.",
+            "Does not decide correctness of the C++ reachability search on all graphs (shape facts only) nor solver behaviour on the remaining "
+            "network.", "DESIGN.md §4 C09"),
     "C10": ("state inventory: loop-carried attributes of WNTRSimulator (assigned, item-assigned through aliases, or mutated by state-changing calls "
             "inside run_sim's loop and the methods it calls) joined with the definitions reaching the loop on a continued run and classified as "
             "model-derived vs constant; class-table scan for pickling hooks; guard analysis of prologue stores; CFG dominance for the exit / advance order",
